@@ -65,7 +65,11 @@ def make_device(d, rng):
 
 def _scripted(d, kw):
     rp = d.pop("restrict_puts", None)
+    mu = d.pop("mute", None)
     dev = _scripted0(d, kw)
+    if mu:
+        dev.mute_rng = random.Random(mu.get("seed", 0))
+        dev.mute_p = mu.get("p", 0.3)
     if rp:
         dev.restrict_rng = random.Random(rp.get("seed", 0))
         dev.restrict_p = rp.get("p", 0.3)
